@@ -43,6 +43,88 @@ def _analyse(job):
     return (name, kind, len(R.obs), [o.key for o in failing][:5], round(time.time() - t0, 1))
 
 
+def _extract_worker(arg):
+    """one worker: its own scratch copy of the repository and its own cargo target directory"""
+    (wi, chunk, repo, cdir, base_hash, scratch) = arg
+    import hashlib
+    import extract
+    if wi > 0:
+        os.environ["VERIF_TARGET_SUFFIX"] = "-w%d" % wi
+    base = os.path.join(scratch, "repo%d" % wi)
+    subprocess.check_call(["rsync", "-a", "--exclude", "target", "--exclude", ".git", repo + "/", base + "/"])
+    done, skipped = [], []
+    for (name, patch, fp) in chunk:
+        shutil.rmtree(os.path.join(base, "src"), ignore_errors=True)
+        shutil.copytree(os.path.join(repo, "src"), os.path.join(base, "src"))
+        r = subprocess.run(["git", "apply", "--unsafe-paths", "--directory", base, patch], cwd="/", capture_output=True, text=True)
+        if r.returncode != 0:
+            r = subprocess.run(["patch", "-p1", "-s", "-d", base, "-i", patch], capture_output=True, text=True)
+            if r.returncode != 0:
+                skipped.append((name, "patch does not apply to the current tree"))
+                continue
+        try:
+            path, key, dt, _was_cached = extract.extract("lib", repo=base)
+        except Exception as e:
+            skipped.append((name, "does not build: %s" % str(e)[:100]))
+            continue
+        shutil.copy(path, fp + ".tmp")
+        os.replace(fp + ".tmp", fp)
+        try:
+            os.remove(path)
+        except OSError:
+            pass
+        done.append((name, fp))
+    return done, skipped
+
+
+def extract_many(named_patches, repo="/repo", workers=8):
+    """facts of every patch applied to a scratch copy of `repo` (cached by tree hash + patch hash under .cache/corpus; missing
+    ones are extracted by up to `workers` processes in parallel).  -> ([(name, facts path)], [(name, why skipped)])"""
+    import hashlib
+    import extract
+    cdir = os.path.join(VERIF, ".cache", "corpus")
+    os.makedirs(cdir, exist_ok=True)
+    extract.REPO = repo
+    base_hash = extract.input_hash("lib")
+    have, need = [], []
+    for (name, patch) in named_patches:
+        ph = hashlib.sha256(open(patch, "rb").read()).hexdigest()[:16]
+        fp = os.path.join(cdir, "%s-%s-%s.json" % (name, base_hash, ph))
+        if os.path.isfile(fp):
+            have.append((name, fp))
+        else:
+            need.append((name, patch, fp))
+    skipped = []
+    if need:
+        scratch = tempfile.mkdtemp(prefix="ppg-selftest-")
+        try:
+            n = max(1, min(workers, len(need) // 4 or 1))
+            cache = os.path.dirname(cdir)
+            main_target = os.path.join(cache, "target-lib")
+            for wi in range(1, n):
+                wt = os.path.join(cache, "target-lib-w%d" % wi)
+                if not os.path.isdir(wt) and os.path.isdir(main_target):
+                    subprocess.call(["cp", "-a", main_target, wt])       # dependencies are already built there
+            chunks = [need[i::n] for i in range(n)]
+            args = [(wi, chunks[wi], repo, cdir, base_hash, scratch) for wi in range(n)]
+            if n == 1:
+                results = [_extract_worker(args[0])]
+            else:
+                ctx = multiprocessing.get_context("fork")
+                with ctx.Pool(n) as pool:
+                    results = pool.map(_extract_worker, args, chunksize=1)
+            for (done, sk) in results:
+                have += done
+                skipped += sk
+        finally:
+            shutil.rmtree(scratch, ignore_errors=True)
+            extract.REPO = repo
+            os.environ.pop("VERIF_TARGET_SUFFIX", None)
+    order = dict((n_, i) for i, (n_, _p) in enumerate(named_patches))
+    have.sort(key=lambda x: order.get(x[0], 0))
+    return have, skipped
+
+
 def run(prop, repo="/repo", limit=None):
     import extract
     seeds_dir = os.path.join(VERIF, "seeded")
@@ -62,48 +144,15 @@ def run(prop, repo="/repo", limit=None):
                 items.append((s, "refactoring", p))
     if limit:
         items = items[:limit]
-    scratch = tempfile.mkdtemp(prefix="ppg-selftest-")
-    jobs = []
-    skipped = []
-    try:
-        base = os.path.join(scratch, "repo")
-        subprocess.check_call(["rsync", "-a", "--exclude", "target", "--exclude", ".git", repo + "/", base + "/"])
-        # the scratch copy needs a git index for `git apply`-independent patching: use patch(1) semantics via git apply --unsafe-paths
-        import hashlib
-        cdir = os.path.join(VERIF, ".cache", "corpus")
-        os.makedirs(cdir, exist_ok=True)
-        extract.ensure_driver()
-        extract.REPO = repo
-        base_hash = extract.input_hash("lib")
-        for (name, kind, patch) in items:
-            ph = hashlib.sha256(open(patch, "rb").read()).hexdigest()[:16]
-            cached = os.path.join(cdir, "%s-%s-%s.json" % (name, base_hash, ph))
-            if os.path.isfile(cached):
-                # facts of this patch on this tree were extracted before (tools/corpus.py shares the cache)
-                jobs.append((prop, name, kind, cached))
-                continue
-            for f in ("src",):
-                shutil.rmtree(os.path.join(base, f), ignore_errors=True)
-                shutil.copytree(os.path.join(repo, f), os.path.join(base, f))
-            r = subprocess.run(["git", "apply", "--unsafe-paths", "--directory", base, patch], cwd="/", capture_output=True, text=True)
-            if r.returncode != 0:
-                r = subprocess.run(["patch", "-p1", "-s", "-d", base, "-i", patch], capture_output=True, text=True)
-                if r.returncode != 0:
-                    skipped.append((name, "patch does not apply to the current tree"))
-                    continue
-            try:
-                path, key, dt, _was_cached = extract.extract("lib", repo=base)
-            except Exception as e:
-                skipped.append((name, "does not build: %s" % str(e)[:80]))
-                continue
-            shutil.copy(path, cached)
-            jobs.append((prop, name, kind, cached))
-        extract.REPO = repo
-        ctx = multiprocessing.get_context("fork")
-        with ctx.Pool(min(12, max(1, len(jobs)))) as pool:
-            res = pool.map(_analyse, jobs, chunksize=1)
-    finally:
-        shutil.rmtree(scratch, ignore_errors=True)
+    import extract
+    extract.ensure_driver()
+    extract.REPO = repo
+    todo, skipped = extract_many([(n_, p_) for (n_, k_, p_) in items], repo)
+    kinds_ = dict((n_, k_) for (n_, k_, p_) in items)
+    jobs = [(prop, n_, kinds_[n_], fp_) for (n_, fp_) in todo]
+    ctx = multiprocessing.get_context("fork")
+    with ctx.Pool(min(12, max(1, len(jobs)))) as pool:
+        res = pool.map(_analyse, jobs, chunksize=1)
     out = dict(must_fire=[], must_stay_silent=[], skipped=skipped)
     for (name, kind, nobs, failing, dt) in res:
         if kind == "seed":
